@@ -430,8 +430,25 @@ Proof.
   - rewrite (H b) by (left; reflexivity). rewrite IH; [reflexivity|]. intros x Hx. apply H. right. exact Hx.
 Qed.
 
-Lemma basic_roundtrip_safe u pw : (forall b, In b u -> N.eqb b 58 = false) -> basic_roundtrip u pw = (u, pw).
-Proof. intro H. unfold basic_roundtrip. rewrite cut_colon_join by exact H. reflexivity. Qed.
+Lemma has_colon_false u : has_colon u = false -> forall b, In b u -> N.eqb b 58 = false.
+Proof.
+  unfold has_colon. intros H b Hb. destruct (N.eqb b 58) eqn:E; [|reflexivity].
+  assert (existsb (fun b => N.eqb b 58) u = true) by (apply existsb_exists; exists b; split; assumption). congruence.
+Qed.
+
+Lemma no_colon_has_colon u : (forall b, In b u -> N.eqb b 58 = false) -> has_colon u = false.
+Proof.
+  intro H. unfold has_colon. destruct (existsb _ u) eqn:E; [|reflexivity].
+  apply existsb_exists in E. destruct E as [b [Hb He]]. rewrite (H b Hb) in He. discriminate.
+Qed.
+
+(* what is sent is what arrives; a user name is refused exactly when it holds a colon *)
+Lemma basic_send_spec u pw :
+  (has_colon u = true /\ basic_send u pw = None) \/ (has_colon u = false /\ basic_send u pw = Some (u, pw)).
+Proof.
+  unfold basic_send. destruct (has_colon u) eqn:E; [left; split; reflexivity|right; split; [reflexivity|]].
+  apply cut_colon_join, has_colon_false, E.
+Qed.
 
 Lemma arrive_safe l c : loc_safe l c -> arrive l c = c.
 Proof. destruct l; simpl; intro H; [apply header_roundtrip_safe, H|reflexivity|reflexivity]. Qed.
@@ -440,13 +457,23 @@ Lemma map_keys_safe (f : string * bytes -> string * bytes) (l : list (string * b
   (forall kv, In kv l -> f kv = kv) -> map f l = l.
 Proof. induction l as [|x l IH]; simpl; intro H; [reflexivity|]. rewrite H by (left; reflexivity). rewrite IH; [reflexivity|]. intros kv Hk. apply H. right. exact Hk. Qed.
 
-Lemma transport_safe L p : wire_safe L p -> transport L p = p.
+Lemma transport_safe L p : wire_safe L p -> transport L p = Some p.
 Proof.
-  intros [Hu [Ht [Ha Hk]]]. unfold transport. rewrite (basic_roundtrip_safe _ _ Hu). simpl.
-  rewrite (arrive_safe _ _ Ht), (arrive_safe _ _ Ha).
-  rewrite map_keys_safe.
-  - destruct p; reflexivity.
-  - intros [k v] Hin. simpl. rewrite arrive_safe; [reflexivity|]. apply (Hk k v Hin).
+  intros [Hu [Ht [Ha Hk]]]. unfold transport.
+  destruct (basic_send_spec (p_user p) (p_pass p)) as [[Hc _]|[_ ->]].
+  - rewrite (no_colon_has_colon _ Hu) in Hc. discriminate.
+  - simpl. rewrite (arrive_safe _ _ Ht), (arrive_safe _ _ Ha). rewrite map_keys_safe.
+    + destruct p; reflexivity.
+    + intros [k v] Hin. simpl. rewrite arrive_safe; [reflexivity|]. apply (Hk k v Hin).
+Qed.
+
+Lemma transport_basic L p :
+  (has_colon (p_user p) = true /\ transport L p = None) \/
+  (has_colon (p_user p) = false /\ exists p', transport L p = Some p' /\ p_user p' = p_user p /\ p_pass p' = p_pass p).
+Proof.
+  unfold transport. destruct (basic_send_spec (p_user p) (p_pass p)) as [[Hc ->]|[Hc ->]].
+  - left. split; [exact Hc|reflexivity].
+  - right. split; [exact Hc|]. eexists. split; [reflexivity|]. split; reflexivity.
 Qed.
 
 Lemma data_reqs_NoDup reqs r : In r (data_reqs reqs) -> NoDup (map s_name (r_schemes r)).
